@@ -29,18 +29,198 @@ func strList(r *zv.Rng, max int, f func() string) []string {
 	return out
 }
 
-// RandName: a distinguished name over the attribute set pkix.Name marshals (printable ASCII and, sometimes, UTF-8 values).
+// ---- attribute-value strings ----
+//
+// encoding/asn1 picks PrintableString or UTF8String for an untagged Go string by looking at every rune, and the parser
+// enforces the PrintableString alphabet; a creation/parsing round trip therefore depends on the exact rune set of a
+// value. The values are drawn from classes aimed at that decision (same idea as the C18/C22 string generators):
+// printable ASCII; ASCII outside the PrintableString set; Latin-1; runes >= U+0100 whose LOW BYTE is a PrintableString
+// character (U+0144 -> 'D', U+4E2D -> '-', ...: indistinguishable from printable ASCII for code that truncates a rune
+// to a byte); whole Unicode blocks; UTF-8 length boundaries; real-world names; and mixtures with printable ASCII.
+
+const printableSet = "abcdefghijklmnopqrstuvwxyzABCDEFGHIJKLMNOPQRSTUVWXYZ0123456789 '()+,-./:=?"
+const asciiNonPrintable = "*&@_!\"#$%;<>[\\]^`{|}~"
+
+var realNames = []string{"Gda\u0144sk", "Plze\u0148", "Po\u0161ta", "\u0130stanbul", "\u0141\u00f3d\u017a", "\u4e2d", "\u65e5\u672c", "\u03a3 Acme Co",
+	"Z\u00fcrich", "caf\u00e9 \u2603", "\u0141A", "\u0160koda Auto a.s.", "\u010cesk\u00e1 po\u0161ta", "T\u00dcRKTRUST", "\u4e2d\u534e", "\u041c\u043e\u0441\u043a\u0432\u0430", "\U0001F512 Safe"}
+
+// unicode blocks (first, last) the "block" class draws from
+var runeBlocks = [][2]rune{{0x80, 0xff}, {0x100, 0x17f}, {0x180, 0x24f}, {0x370, 0x3ff}, {0x400, 0x4ff}, {0x5d0, 0x5ea}, {0x621, 0x64a},
+	{0x900, 0x97f}, {0xe01, 0xe3a}, {0x1e00, 0x1eff}, {0x2000, 0x206f}, {0x20a0, 0x20bf}, {0x2600, 0x26ff}, {0x3040, 0x30ff},
+	{0x4e00, 0x9fff}, {0xac00, 0xd7a3}, {0xe000, 0xf8ff}, {0xff01, 0xff5e}, {0x10000, 0x1007f}, {0x1f300, 0x1f6ff}, {0x20000, 0x2a6df}, {0xe0100, 0xe01ef}}
+
+var boundaryRunes = []rune{0x7f, 0x80, 0xff, 0x100, 0x7ff, 0x800, 0xd7ff, 0xe000, 0xfffd, 0xffff, 0x10000, 0x10ffff, 0x1, 0x1f}
+
+func validRune(c rune) bool { return c >= 0 && c <= 0x10ffff && !(c >= 0xd800 && c <= 0xdfff) }
+
+// LowBytePrintableRune: a rune >= U+0100 whose low 8 bits are a PrintableString character.
+func LowBytePrintableRune(r *zv.Rng) rune {
+	for {
+		var hi rune
+		switch r.Intn(4) {
+		case 0:
+			hi = rune(1 + r.Intn(2)) // Latin Extended-A/B: the common real-world case
+		case 1:
+			hi = rune(1 + r.Intn(0xff)) // BMP
+		case 2:
+			hi = rune(0x4e + r.Intn(0x52)) // CJK
+		default:
+			hi = rune(1 + r.Intn(0x10ff)) // anything up to U+10FFxx
+		}
+		c := hi<<8 | rune(printableSet[r.Intn(len(printableSet))])
+		if validRune(c) {
+			return c
+		}
+	}
+}
+
+func blockRune(r *zv.Rng) rune {
+	b := runeBlocks[r.Intn(len(runeBlocks))]
+	return b[0] + rune(r.Intn(int(b[1]-b[0])+1))
+}
+
+func asciiRunes(r *zv.Rng, set string, n int) []rune {
+	out := make([]rune, n)
+	for i := range out {
+		out[i] = rune(set[r.Intn(len(set))])
+	}
+	return out
+}
+
+func shuffleRunes(r *zv.Rng, l []rune) {
+	for i := len(l) - 1; i > 0; i-- {
+		j := r.Intn(i + 1)
+		l[i], l[j] = l[j], l[i]
+	}
+}
+
+// AttrClasses lists the value classes of AttrValue (for tags).
+var AttrClasses = []string{"word", "latin1", "lowbyte-printable", "lowbyte-printable+ascii", "block", "block+ascii", "boundary", "ascii-nonprintable", "real", "any"}
+
+// AttrValue draws a non-empty, valid-UTF-8 attribute value; the second result names its class.
+func AttrValue(r *zv.Rng) (string, string) {
+	c := r.Intn(100)
+	switch {
+	case c < 40:
+		return word(r), "word"
+	case c < 46:
+		return word(r) + " \u00dcn\u00ef\u00a9ode", "latin1"
+	case c < 56: // only runes whose low byte is printable
+		n := 1 + r.Intn(4)
+		l := make([]rune, n)
+		for i := range l {
+			l[i] = LowBytePrintableRune(r)
+		}
+		return string(l), "lowbyte-printable"
+	case c < 68: // the same mixed with printable ASCII ("Gda\u0144sk")
+		l := asciiRunes(r, printableSet, 1+r.Intn(6))
+		for i := 1 + r.Intn(3); i > 0; i-- {
+			l = append(l, LowBytePrintableRune(r))
+		}
+		shuffleRunes(r, l)
+		return string(l), "lowbyte-printable+ascii"
+	case c < 74:
+		n := 1 + r.Intn(5)
+		l := make([]rune, n)
+		for i := range l {
+			l[i] = blockRune(r)
+		}
+		return string(l), "block"
+	case c < 82:
+		l := asciiRunes(r, printableSet, 1+r.Intn(6))
+		for i := 1 + r.Intn(3); i > 0; i-- {
+			l = append(l, blockRune(r))
+		}
+		shuffleRunes(r, l)
+		return string(l), "block+ascii"
+	case c < 86:
+		l := asciiRunes(r, printableSet, r.Intn(4))
+		for i := 1 + r.Intn(2); i > 0; i-- {
+			l = append(l, boundaryRunes[r.Intn(len(boundaryRunes))])
+		}
+		shuffleRunes(r, l)
+		return string(l), "boundary"
+	case c < 91:
+		l := asciiRunes(r, printableSet, r.Intn(5))
+		l = append(l, asciiRunes(r, asciiNonPrintable, 1+r.Intn(2))...)
+		shuffleRunes(r, l)
+		return string(l), "ascii-nonprintable"
+	case c < 96:
+		return realNames[r.Intn(len(realNames))], "real"
+	default: // uniformly random code points
+		n := 1 + r.Intn(4)
+		l := make([]rune, 0, n)
+		for len(l) < n {
+			if c := rune(r.Intn(0x110000)); validRune(c) {
+				l = append(l, c)
+			}
+		}
+		return string(l), "any"
+	}
+}
+
+// ValueClass classifies an attribute value by what decides its string type: "printable" (PrintableString),
+// "ascii-other" (ASCII outside the PrintableString set), "nonascii-lowbyte-printable" (not ASCII, but every rune's low
+// byte is a PrintableString character — the class a byte-truncating encoder mistakes for printable), "nonascii".
+func ValueClass(s string) string {
+	ascii, trap := true, true
+	for _, c := range s {
+		lowPrintable := false
+		for i := 0; i < len(printableSet); i++ {
+			if byte(c) == printableSet[i] {
+				lowPrintable = true
+			}
+		}
+		if c >= 0x80 {
+			ascii = false
+		}
+		if !lowPrintable {
+			trap = false
+		}
+	}
+	switch {
+	case ascii && trap:
+		return "printable"
+	case ascii:
+		return "ascii-other"
+	case trap:
+		return "nonascii-lowbyte-printable"
+	}
+	return "nonascii"
+}
+
+// NameClasses returns the sorted set of "name:<class>" tags of all attribute values of n.
+func NameClasses(n pkix.Name) []string {
+	seen := map[string]bool{}
+	for _, l := range [][]string{{n.CommonName, n.SerialNumber}, n.Organization, n.OrganizationalUnit, n.Country, n.Locality, n.Province, n.StreetAddress,
+		n.PostalCode, n.DomainComponent, n.EmailAddress, n.JurisdictionLocality, n.JurisdictionProvince, n.JurisdictionCountry, n.OrganizationIDs} {
+		for _, v := range l {
+			if v != "" {
+				seen[ValueClass(v)] = true
+			}
+		}
+	}
+	var out []string
+	for _, c := range []string{"ascii-other", "nonascii", "nonascii-lowbyte-printable", "printable"} {
+		if seen[c] {
+			out = append(out, "name:"+c)
+		}
+	}
+	return out
+}
+
+// RandName: a distinguished name over the attribute set pkix.Name marshals; values from AttrValue.
 func RandName(r *zv.Rng) pkix.Name {
 	n := pkix.Name{}
 	w := func() string {
-		s := word(r)
-		if r.Chance(10) {
-			s += " Ünï©ode"
-		}
+		s, _ := AttrValue(r)
 		return s
 	}
 	if r.Chance(85) {
-		n.CommonName = w() + fmt.Sprintf(" %d", r.Intn(1000))
+		n.CommonName = w()
+		if r.Chance(60) {
+			n.CommonName += fmt.Sprintf(" %d", r.Intn(1000))
+		}
 	}
 	n.Organization = strList(r, 2, w)
 	n.OrganizationalUnit = strList(r, 2, w)
@@ -53,10 +233,19 @@ func RandName(r *zv.Rng) pkix.Name {
 	}
 	if r.Chance(20) {
 		n.SerialNumber = fmt.Sprintf("SN%d", r.Intn(1_000_000))
+		if r.Chance(30) {
+			n.SerialNumber = w()
+		}
 	}
 	if r.Chance(10) {
 		n.DomainComponent = strList(r, 2, func() string { return word(r) })
 		n.EmailAddress = strList(r, 1, func() string { return word(r) + "@example.org" })
+	}
+	if r.Chance(8) { // EV / QWAC attributes
+		n.JurisdictionLocality = strList(r, 1, w)
+		n.JurisdictionProvince = strList(r, 1, w)
+		n.JurisdictionCountry = strList(r, 1, func() string { return []string{"US", "DE", "PL", "TR"}[r.Intn(4)] })
+		n.OrganizationIDs = strList(r, 1, w)
 	}
 	if n.CommonName == "" && len(n.Organization) == 0 && len(n.Country) == 0 {
 		n.CommonName = "fallback"
